@@ -15,6 +15,7 @@ CONSTANTS
   MaxAdv = 1
   MaxFork = 0
   UseScan = TRUE
+  UseAccounts2 = FALSE
   UseSelf = FALSE
   UseDiverge = TRUE
   UseAdv = FALSE
